@@ -51,6 +51,23 @@ CLAIMED = {
         technique=TECH+'symbolic design vectors of unbounded integers through every registered encoder/imputer; onto-ness '
                        'as a solver query over unbounded matrices',
         ref='DESIGN.md section 4 (C10)'),
+    'C11': dict(
+        level='model_checking',
+        text='Per hand-written DSG template with connection choices (permanent and option-tied connectors, grouping '
+             'connectors with conditional members, exclusion edges, two connection choices) and per selection scenario of '
+             'the complete encoder: the connectors present and the exclusion edges are read from the instance graph and '
+             'give an independent specification Spec(M); z3 refutes, over all non-negative integer matrices, Spec != '
+             '(M in matrices the processor offers for the scenario\'s existence pattern), Spec != V_a (summary of the real '
+             'validate_matrix with that pattern), Spec != (M in iter_conn_edges(instance)), Spec != V_b (summary of the real '
+             'validator behind validate_conn_edges); scenario masked <=> Spec unsatisfiable. Grouping connector: real '
+             'get_combined_deg / is_valid / to_assign_node with symbolic member degrees and symbolic queried degree: '
+             'is_valid(d) <=> exists member degrees summing to d. Connector construction with symbolic deg_min/deg_max.',
+        note='Trusted: z3 (LIA + one quantifier alternation for the grouping sum), spec/conn.py, symx (native replay of '
+             'every model, one native run per validator path). The parallel-connection cap is taken from the library per '
+             'view (a library parameter; decided under C09). Graphs other than the templates are outside the claim; '
+             '"applying a set yields exactly those edges" is an auxiliary concrete check.',
+        technique=TECH+'validity kernel summarised per existence scenario, set equalities over unbounded integer matrices',
+        ref='DESIGN.md section 4 (C11)'),
     'C13': dict(
         level='model_checking',
         text='PARTIAL. Bounded symbolic execution of the real get_valid_idx_combinations on rows of symbolic indices '
@@ -107,7 +124,6 @@ NOT_APPLICABLE = {
     'C19': 'thread scheduling, timed waits, asynchronous exception injected through ctypes, native blocking: concurrency and FFI',
     'C20': 'inputs are two graphs and dictionaries of node objects; resolution is set/dict look-ups on strings plus graph application; symbolic option indices would only drive list indexing',
     # under construction
-    'C11': 'check under construction in this round (planned claim, see DESIGN.md section 4)',
     'C15': 'check under construction in this round (planned claim, see DESIGN.md section 4)',
 }
 
